@@ -72,7 +72,7 @@ class C01(Prop):
             yield {"k": "ast", "cmds": cmds, "d": pl.render(cmds, rng)}
 
     def tag(self, case):
-        if case["k"] == "lit":
+        if case.get("k", "lit") == "lit":
             return ["literal"]
         cmds = case["cmds"]
         tags = ["ast"]
@@ -99,7 +99,7 @@ class C01(Prop):
 
     def model_ops(self, case):
         ops = ["path.parse\t" + shex(case["d"])]
-        if case["k"] == "ast":
+        if case.get("k", "lit") == "ast":
             w = pl.ast_wire(case["cmds"])
             ops += ["path.spec\t" + w, "path.run\t" + w]
         return ops
@@ -117,7 +117,7 @@ class C01(Prop):
         d = pl.segs_diff(obs["segs"], segs)
         if d:
             ms.append(Mismatch(stream="path.parse", case=self.describe(case), impl=d, model=outs[0][:300]))
-        if case["k"] == "ast":
+        if case.get("k", "lit") == "ast":
             st2, segs2 = pl.parse_model(outs[2])
             d = "token-level model raised " + st2 if st2 != "ok" else pl.segs_diff(obs["segs"], segs2)
             if d:
@@ -127,11 +127,11 @@ class C01(Prop):
     def oracle(self, case, obs):
         fs = []
         if "exc" in obs:
-            if case["k"] == "ast":
+            if case.get("k", "lit") == "ast":
                 fs.append(Failure(what="conforming path data raised %s" % obs["exc"], case=self.describe(case)))
             return fs
         c = pl.connectivity(obs["segs"])
-        if c and case["k"] == "ast":
+        if c and case.get("k", "lit") == "ast":
             fs.append(Failure(what="not connected: " + c, case=self.describe(case), observed=obs["segs"][:6]))
         return fs
 
@@ -145,7 +145,7 @@ class C01WithSpec(C01):
 
     def compare(self, case, obs, outs):
         ms = C01.compare(self, case, obs, outs)
-        if case["k"] == "ast" and "segs" in obs:
+        if case.get("k", "lit") == "ast" and "segs" in obs:
             st, spec = pl.parse_model(outs[1])
             if st == "ok":
                 d = pl.segs_diff(obs["segs"], spec)
